@@ -22,6 +22,12 @@ def is_int(b):
         return False
 
 
+def no_ties(vals):
+    """No two values are equal under either reading (text, or integer value: "5" and "05" tie numerically)."""
+    typed = [int(v) if is_int(v) else v for v in vals]
+    return len(set(vals)) == len(vals) and len(set(typed)) == len(typed)
+
+
 def consistent_values(vals):
     """True when cmp(a, b) = numeric if both integers else bytewise is transitive on vals."""
     def lt(a, b):
@@ -248,7 +254,7 @@ class Check:
                         # the values present (otherwise no unique sorted order exists under any pairwise rule).
                         if order_ref is None:
                             order_ref = vals
-                        elif vals != order_ref and sorted(vals) == sorted(order_ref) and consistent_values(vals) and len(set(vals)) == len(vals):
+                        elif vals != order_ref and sorted(vals) == sorted(order_ref) and consistent_values(vals) and no_ties(vals):
                             viols.append(Violation(PROP, "C08.sorted", ["C08.sorted", "order_depends_on_seed", case["order"]["key"].split("(")[0]],
                                                    {"query": qg, "seed": seed, "env": pi, "values": [v.decode("utf-8", "replace") for v in vals][:12],
                                                     "values_under_first_seed": [v.decode("utf-8", "replace") for v in order_ref][:12]}))
